@@ -146,6 +146,7 @@ inductive Ev
   | socketDisconnected  -- environment: the connection is gone (cut)
   | recv (e : El)       -- server
   | sendIq              -- application: QXmppOutgoingClient::sendIq
+  | sendIqRetry         -- application: sendIq whose FAILURE continuation sends one more request ("retry once", depth 1)
   | recvWhitespace      -- server: a whitespace keep-alive (XmppSocket hands a null element to the listener)
   | recvPartial         -- server: the beginning of an element (stays in the read buffer)
   | tlsCloseNotify      -- server: TLS close_notify WITHOUT closing the TCP connection
@@ -243,8 +244,11 @@ structure St where
   unacked : List Kind := []
   bind2Bound : Bool := false
   redirect : Bool := false
-  /-- the application's outstanding IQ requests -/
+  /-- the application's outstanding IQ requests (whose continuations do nothing that the model sees) -/
   pendingIq : Nat := 0
+  /-- … and those whose failure continuation sends one more (plain) request.  The request table is a hash map, so the order in
+  which a mixed set is cancelled is not defined; the model cancels the plain ones first (the harness never mixes the two kinds) -/
+  pendingRetry : Nat := 0
   hasToken : Bool := false
   tokenRequested : Bool := false
   csiSynced : Bool := true
@@ -277,11 +281,30 @@ def enableAck (s : St) : R :=
 /-- QXmppClientPrivate::onErrorOccurred for a SOCKET error: schedule a reconnect -/
 def armReconnect (s : St) : St := { s with reconnectArmed := s.reconnectArmed || s.cfg.autoReconnect }
 
-/-- `closeSession` -/
+/-- `QXmppOutgoingClient::sendIq`: without stream management a request on a socket that is not connected fails at once (write
+error); with it the stanza is queued and the request stays outstanding -/
+def sendIq (s : St) : R :=
+  let r := sendStanza s (.iqRequest false)
+  if ¬ s.ackEnabled ∧ s.conn ≠ .connected then (r.1, r.2 ++ [.sig (.iqDone true)])
+  else ({ r.1 with pendingIq := r.1.pendingIq + 1 }, r.2)
+
+/-- `n` retry-requests are finished with an error, one after the other: each continuation runs synchronously inside
+`OutgoingIqManager::cancelAll` and sends one more request, in the state the client is in at that moment -/
+def retryN : Nat → St → R
+  | 0, s => (s, [])
+  | n + 1, s =>
+    let r1 := sendIq s
+    let r2 := retryN n r1.1
+    (r2.1, .sig (.iqDone true) :: r1.2 ++ r2.2)
+
+/-- `closeSession`: the ack manager is switched off FIRST, then (unless the stream can be resumed) every outstanding request is
+cancelled — so a request sent by a failure continuation meets a dead socket without stream management and fails at once -/
 def closeSession (s : St) : R :=
   let n := if s.canResume then 0 else s.pendingIq
-  ({ s with sessionStarted := false, ackEnabled := false, pendingIq := s.pendingIq - n },
-   iqDones n ++ [.sig .disconnected])
+  let m := if s.canResume then 0 else s.pendingRetry
+  let r := retryN m { s with sessionStarted := false, ackEnabled := false, pendingIq := s.pendingIq - n,
+                             pendingRetry := s.pendingRetry - m }
+  (r.1, iqDones n ++ r.2 ++ [.sig .disconnected])
 
 /-- `_q_socketDisconnected` (the socket is already gone).  see-other-host: the session (if any) is closed, then the client
 reconnects through a queued call (`connecting`; the TCP connect is the environment event `socketConnected`) -/
@@ -312,6 +335,13 @@ def failAuth (s : St) : R :=
   let r := disconnectFromHost s
   ({ r.1 with listener := .idle }, .sig .error :: r.2)
 
+/-- `OutgoingIqManager::onSessionOpened`: a session that was not resumed cannot answer old requests - they are cancelled; what
+their continuations send belongs to the new session and stays outstanding -/
+def cancelOld (s : St) : R :=
+  if s.smResumed then (s, []) else
+    let r := retryN s.pendingRetry { s with pendingIq := 0, pendingRetry := 0 }
+    (r.1, iqDones s.pendingIq ++ r.2)
+
 def csiSendState (s : St) : R :=
   if s.authenticated ∧ s.csiAvail then
     ({ s with csiSynced := decide (s.conn = .connected) }, [send s (if s.cfg.inactive then .csiInactive else .csiActive)])
@@ -327,8 +357,9 @@ def openSession (s : St) : R :=
   let bind2Used := s.bind2Bound
   -- a session without stream management cannot be resumed and replaces any older resumable one (c590ae4)
   let s1 := { s with sessionStarted := true, bind2Bound := false, canResume := s.smEnabled && s.canResume }
-  let o1 := if s1.smResumed then [] else iqDones s1.pendingIq
-  let s2 := if s1.smResumed then s1 else { s1 with pendingIq := 0 }
+  let r2 := cancelOld s1
+  let o1 := r2.2
+  let s2 := r2.1
   let r3 := csiOnSessionOpened s2 bind2Used
   let r4 := if r3.1.authenticated then sendStanza r3.1 (.iqRequest true) else (r3.1, [])
   let r5 := if r4.1.authenticated ∧ ¬ r4.1.smResumed then sendStanza r4.1 .presence else (r4.1, [])
@@ -479,7 +510,9 @@ def idleHandle' (s : St) : El → R
   | .iq (.get known) => sendStanza s (.iqReply (!known))
   | .iq .set => sendStanza s (.iqReply true)
   | .iq .resultPending =>
-    if s.pendingIq = 0 then (s, []) else ({ s with pendingIq := s.pendingIq - 1 }, [.sig (.iqDone false)])
+    if s.pendingIq = 0 then
+      (if s.pendingRetry = 0 then (s, []) else ({ s with pendingRetry := s.pendingRetry - 1 }, [.sig (.iqDone false)]))
+    else ({ s with pendingIq := s.pendingIq - 1 }, [.sig (.iqDone false)])
   | .iq _ => (s, [])
   | .message => (s, [])
   | .presence => (s, [])
@@ -673,10 +706,13 @@ def connectTo (s : St) : R :=
   ({ r.1 with conn := .connecting, encrypted := false, hasToken := r.1.cfg.token, target := connectTarget r.1,
               peerShutdown := false }, r.2)
 
-def sendIq (s : St) : R :=
+/-- `sendIq(...).then(ctx, retry-once)`: if the request fails at once the continuation sends the retry right away -/
+def sendIqRetry (s : St) : R :=
   let r := sendStanza s (.iqRequest false)
-  if ¬ s.ackEnabled ∧ s.conn ≠ .connected then (r.1, r.2 ++ [.sig (.iqDone true)])
-  else ({ r.1 with pendingIq := r.1.pendingIq + 1 }, r.2)
+  if ¬ s.ackEnabled ∧ s.conn ≠ .connected then
+    let r2 := sendIq r.1
+    (r2.1, r.2 ++ [.sig (.iqDone true)] ++ r2.2)
+  else ({ r.1 with pendingRetry := r.1.pendingRetry + 1 }, r.2)
 
 def step (s : St) : Ev → R
   | .connectToServer => connectTo s
@@ -687,6 +723,7 @@ def step (s : St) : Ev → R
   | .socketDisconnected => socketGone s
   | .recv e => recv s e
   | .sendIq => sendIq s
+  | .sendIqRetry => sendIqRetry s
   | .recvWhitespace =>
     -- `handlePacketReceived` stops the ping timeout and returns (8d68c05): no listener sees the null element
     (s, [])
